@@ -43,6 +43,29 @@ def main():
     ctx = core.Ctx(a.prop, a.tier, a.seed)
     status = "ok"
     err = None
+
+    # watchdog: a single case that makes no progress for a long time (e.g. a dead-locked thread pool) must not hang
+    # the check; the partial results are written and the process exits with code 3 (inconclusive, never a violation)
+    import threading
+
+    limit = float(os.environ.get("VERIF_CASE_TIMEOUT", "240" if a.tier == "quick" else "900"))
+
+    def watchdog():
+        while True:
+            time.sleep(5)
+            if time.time() - ctx.t_case > limit and ctx.current is not None:
+                out = ctx.dump()
+                out["status"] = "stalled"
+                sub_name, case = ctx.current
+                out["error"] = None
+                out["stalled_case"] = {"sub": sub_name, "case": json.loads(core.canon(case))}
+                try:
+                    json.dump(out, open(a.out, "w"), default=core.jdefault)
+                finally:
+                    os._exit(3)
+
+    if not a.replay:
+        threading.Thread(target=watchdog, daemon=True).start()
     try:
         if a.replay:
             rec = json.load(open(a.replay))
@@ -82,4 +105,8 @@ def main():
 
 
 if __name__ == "__main__":
-    sys.exit(main())
+    rc = main()
+    sys.stdout.flush()
+    sys.stderr.flush()
+    # skip interpreter teardown: native thread pools (OpenMP, polars, Arrow) have been seen to hang there
+    os._exit(rc or 0)
